@@ -1208,8 +1208,23 @@ func (w *_structAssembler) AssembleKey() datamodel.NodeAssembler {
 		cfg:        w.cfg,
 		schemaType: schemaTypeString,
 		val:        reflect.New(goTypeString).Elem(),
+		// Report a repeated field when the key is supplied.
+		finish: func() error { return w.checkKey(w.curKey.val.String()) },
 	}
 	return &w.curKey
+}
+
+// checkKey reports a key naming a field that has been assembled already.
+// (An unknown field name is reported by the value assembler, see AssembleValue.)
+func (w *_structAssembler) checkKey(name string) error {
+	if w.schemaType.Field(name) == nil {
+		return nil
+	}
+	ftyp, ok := w.val.Type().FieldByName(fieldNameFromSchema(name))
+	if ok && len(ftyp.Index) == 1 && w.doneFields[ftyp.Index[0]] {
+		return datamodel.ErrRepeatedMapKey{Key: basicnode.NewString(name)}
+	}
+	return nil
 }
 
 func (w *_structAssembler) AssembleValue() datamodel.NodeAssembler {
